@@ -14,6 +14,10 @@ pub enum Plan {
     VictimOpen { vi: usize, victim: u64, long: bool },
     Push { vi: usize, victim: u64, target_bp: i64, steps_left: u32 },
     AlignOracle { vi: usize },
+    /// oracle far away from the market, on the side that makes `trader`'s position pay funding
+    OracleSkew { vi: usize, trader: u64 },
+    /// PayFunding one funding period later
+    FundingRound { vi: usize },
     Liq { vi: usize, victim: u64, first: bool },
     /// open `frac_ppm` of the quote reserve as notional; `high` = close to the maximum leverage
     OpenFrac { vi: usize, trader: u64, long: bool, frac_ppm: u128, high: bool },
@@ -51,6 +55,8 @@ pub enum CKind {
     VFees,
     /// engine partial-liquidation ratio = 1 and a tight fluctuation limit on the vAMM
     PlrOne,
+    /// engine partial-liquidation ratio = 1/4
+    PlrQuarter,
     VFluctTight,
     /// undo of a re-wiring
     Unwire(u64),
@@ -701,6 +707,24 @@ fn realize(w: &World, r: &mut Rng, g: &mut GenCtx, plan: &Plan, vis: &[VInfo], p
             let now = w.app.block_info().time.seconds();
             Some(draft(snd, Msg::Oracle { price: v.spot(d), ts: now }))
         }
+        Plan::OracleSkew { vi, trader } => {
+            let v = vis.iter().find(|x| x.idx == *vi)?;
+            let p = ps.iter().find(|p| p.v == v.id && p.t == *trader && p.size != 0)?;
+            let long = p.sneg == 0;
+            let snd = if w.cfg.real_feed { w.feed_owner() } else { OWNER };
+            let now = w.app.block_info().time.seconds();
+            // a long pays when the market trades above the oracle, a short when below
+            let price = if long { (v.spot(d) / 3).max(1) } else { v.spot(d).saturating_mul(3) };
+            Some(draft(snd, Msg::Oracle { price, ts: now }))
+        }
+        Plan::FundingRound { vi } => {
+            let v = vis.iter().find(|x| x.idx == *vi)?;
+            let period = w.cfg.vamms.get(v.idx).map(|i| i.period).unwrap_or(3600);
+            let mut dr = draft(STRANGER, Msg::PayFunding { v: v.id });
+            dr.min_blocks = 1;
+            dr.min_dt = period + 1;
+            Some(dr)
+        }
         Plan::Liq { vi, victim, first } => {
             let v = vis.iter().find(|x| x.idx == *vi)?;
             ps.iter().find(|p| p.v == v.id && p.t == *victim)?;
@@ -1029,6 +1053,7 @@ fn config_msg(w: &World, r: &mut Rng, v: &VInfo, kind: CKind, legit: bool, trade
             draft(own, m)
         }
         CKind::PlrOne => draft(eowner, ecfg(None, None, Some(d), None)),
+        CKind::PlrQuarter => draft(eowner, ecfg(None, None, Some(d / 4), None)),
         CKind::VFluctTight => {
             let own = w.vamm_owner(&v.addr);
             let mut m = vcfg0(v.id);
@@ -1164,6 +1189,18 @@ fn start_config(w: &World, r: &mut Rng, g: &mut GenCtx, vis: &[VInfo], ps: &[Pos
         g.plan.push_back(Plan::TraderOp { vi, who: Who::Id(trader), op: TOp::CloseLim(r.range(1, 2)), block: Blk::Next });
         g.plan.push_back(Plan::TraderOp { vi, who: Who::Id(trader), op: TOp::CloseLim(0), block: Blk::Free });
         g.plan.push_back(Plan::TraderOp { vi, who: Who::Id(trader), op: TOp::OpenSame, block: Blk::Free });
+    }
+    if !holders.is_empty() && r.chance(1, 4) {
+        // funding debt larger than the margin, then a PARTIAL close (tight fluctuation limit, ratio 1/4): it must
+        // be refused like a whole close with bad debt
+        g.plan.push_back(Plan::OracleSkew { vi, trader });
+        for _ in 0..r.range(3, 6) {
+            g.plan.push_back(Plan::FundingRound { vi });
+        }
+        g.plan.push_back(Plan::Config { vi, kind: CKind::PlrQuarter, legit: true, trader });
+        g.plan.push_back(Plan::Config { vi, kind: CKind::VFluctTight, legit: true, trader });
+        g.plan.push_back(Plan::TraderOp { vi, who: Who::Id(trader), op: TOp::Close, block: Blk::Next });
+        g.plan.push_back(Plan::AlignOracle { vi });
     }
     if !holders.is_empty() && r.chance(1, 3) {
         // a position closed by an equal-size reversal leaves a stored record of size zero; the next order on
@@ -1746,6 +1783,8 @@ pub fn gen_step(w: &World, r: &mut Rng, g: &mut GenCtx, k: u64, stats: &mut Stat
                 Plan::VictimOpen { .. } => "victim_open",
                 Plan::Push { .. } => "push",
                 Plan::AlignOracle { .. } => "align_oracle",
+                Plan::OracleSkew { .. } => "oracle_skew",
+                Plan::FundingRound { .. } => "funding_round",
                 Plan::Liq { .. } => "liq",
                 Plan::OpenFrac { .. } => "open_frac",
                 Plan::CloseBy { .. } => "close_by",
